@@ -306,7 +306,13 @@ let match_mode dir =
                      let fnd = (match find_leftmost_engine fl.fl_i h r with
                                 | None -> "-"
                                 | Some (i, js) -> Printf.sprintf "%d:%s" (int_of_nat i) (String.concat "," (List.map (fun j -> string_of_int (int_of_nat j)) js))) in
-                     Printf.sprintf "%s/%s" (if full then "1" else "0") fnd) hs)))
+                     (* leftmost-FIRST (Engine/Prio.v): the span `Regex::find` reports; "?" where the priority
+                        model is not exact (a repetition body that can match the empty string) *)
+                     let fst_ = if not (rep_bodies_ok r) then "?" else
+                                (match find_first_engine fl.fl_i h r with
+                                 | None -> "-"
+                                 | Some (i, j) -> Printf.sprintf "%d:%d" (int_of_nat i) (int_of_nat j)) in
+                     Printf.sprintf "%s/%s/%s" (if full then "1" else "0") fnd fst_) hs)))
         | _ -> print_endline "BAD")
      done with End_of_file -> ());
   flush stdout
